@@ -267,7 +267,7 @@ CHECKS = {
                 "Ties on every solve_minor_model call of the real estimate_minor: captured CBC model == MinorInst.build; returned alleles == "
                 "readOut of the solver's binaries; returned score == reported objective; oracle with the property's clauses and exhaustive "
                 "optimality on small instances.",
-        "text_more": "Oracle: the clause 'the reported score equals the objective of the reported assignment' is recomputed from the report alone including the read-phase disagreement (every pattern attributed to the selected copy that contradicts it least); the exhaustive optimum includes the phase term and rule 6; directed class: two copies of one minor allele that differ crosswise (multi-allelic site, variants in trans) with the planted assignment as an admissible upper bound. Spec level (Props/C04Spec, Model/MinorSpec): specMinor computes the documented objective from the reported assignment alone (selected copies, kept / gained variants, the copy each read-phase pattern is attributed to; no product helper, error variable or absolute-value helper is read) and for EVERY instance the objective of any optimum of the model equals specMinor of the assignment that optimum reports (minor_optimum_score_is_spec; product helpers of kept and gained variants exact, reference rows, novel-core indicators, phase indicators); tie family minor_spec_score: the objective reported for every first yield equals specMinor decided by Lean. At an optimum the score IS the documented objective of the reported assignment (Props/C04Tight): no constraint other than its own two mentions an error helper (noabs_cons, all fourteen families), so replacing every helper by the absolute row error keeps a point feasible and lowers the objective by the slack of the helpers (minor_tighten); hence at any optimum every helper equals |observed - carried| of its row (minor_optimum_abs_tight) and the objective is the sum of those absolute fit errors over the variant and reference rows plus the miss / add / novel-core penalties and the read-phase disagreement (minor_optimum_score_is_documented). Score (Props/C04Score): at every point the objective equals error helpers + minor_miss x dropped definition variants + minor_add x (1 + k/1e6) per set add selector + minor_add/2 x novel-core indicators + minor_phase x cnt x (agreeing selectors missed + disagreeing selectors hit) per phase cell (minor_score_closed_form), and at feasible points each summand is the indicator its name says (minor_dropped_term, minor_vnewor_exact, minor_phase_terms; the selectors of a phase cell are keep / add selectors of the cell's slot). Two genuine defects repaired by fix: commits (reference row at multi-allelic sites, candidate order). The clause 'every carried variant has supporting filtered reads' is decided on instances with a variant between the filter thresholds of the structure's copy count and of the copies its site really has. ",
+        "text_more": "Oracle: the clause 'the reported score equals the objective of the reported assignment' is recomputed from the report alone including the read-phase disagreement (every pattern attributed to the selected copy that contradicts it least); the exhaustive optimum includes the phase term and rule 6; directed class: two copies of one minor allele that differ crosswise (multi-allelic site, variants in trans) with the planted assignment as an admissible upper bound. Spec level (Props/C04Spec, Model/MinorSpec): specMinor computes the documented objective from the reported assignment alone (selected copies, kept / gained variants, the copy each read-phase pattern is attributed to; no product helper, error variable or absolute-value helper is read) and for EVERY instance the objective of any optimum of the model equals specMinor of the assignment that optimum reports (minor_optimum_score_is_spec; product helpers of kept and gained variants exact, reference rows, novel-core indicators, phase indicators); tie family minor_spec_score: the objective reported for every first yield equals specMinor decided by Lean. The helpers are functions of the reported assignment (Props/C04Decision, minor_helpers_determined): two feasible points reporting the same copy / keep / add selectors agree on every product helper and every row error. At an optimum the score IS the documented objective of the reported assignment (Props/C04Tight): no constraint other than its own two mentions an error helper (noabs_cons, all fourteen families), so replacing every helper by the absolute row error keeps a point feasible and lowers the objective by the slack of the helpers (minor_tighten); hence at any optimum every helper equals |observed - carried| of its row (minor_optimum_abs_tight) and the objective is the sum of those absolute fit errors over the variant and reference rows plus the miss / add / novel-core penalties and the read-phase disagreement (minor_optimum_score_is_documented). Score (Props/C04Score): at every point the objective equals error helpers + minor_miss x dropped definition variants + minor_add x (1 + k/1e6) per set add selector + minor_add/2 x novel-core indicators + minor_phase x cnt x (agreeing selectors missed + disagreeing selectors hit) per phase cell (minor_score_closed_form), and at feasible points each summand is the indicator its name says (minor_dropped_term, minor_vnewor_exact, minor_phase_terms; the selectors of a phase cell are keep / add selectors of the cell's slot). Two genuine defects repaired by fix: commits (reference row at multi-allelic sites, candidate order). The clause 'every carried variant has supporting filtered reads' is decided on instances with a variant between the filter thresholds of the structure's copy count and of the copies its site really has. ",
         "design_ref": "DESIGN.md section 10.2-10.3 (as built), section 4 (C04), 3.2 (plan)",
         "note": "Optimality = C05 Run theorems + exhaustive oracle on small instances (tie-breaker epsilon <= minor_add*#selectors/1e6 allowed); "
                 "'one variant per site' after the homozygous post-processing is checked by the oracle on every real output (no violation seen), "
